@@ -13,3 +13,4 @@ def run(ck):
     image.r_validate_clears_dirty(ck, P, 'C16-R5')
     prefetch.r11_tail_access_needs_remaining_count(ck, P, 'C16-R6')   # a read-modify-write of the word after the span races with the thread that owns it
     threads.r7_source_iterators_do_not_write_their_image(ck, P)
+    threads.r8_first_use_validates(ck, P)
